@@ -29,12 +29,14 @@ FILES = ['/wobj', '/wobj', '/wobj', '/w/b1', '/w/b2', '/w/b3']
 HOOKS = ['init', 'id', 'catch_tell', 'mod', 'hb', 'x', 'reset']
 
 
-def _hook_script(rng, tags, st, sep):
+def _hook_script(rng, tags, st, sep, hk=None):
     ops = []
     for _ in range(rng.randint(1, 3)):
         r = rng.random()
         t = rng.choice(tags)
-        if r < 0.18: ops.append('wdest me')
+        # the hook moves the object it sits in (from move_or_destruct: the container that is being destructed right now)
+        if rng.random() < (0.3 if hk == 'mod' else 0.06): ops.append('wmove env %s' % t)
+        elif r < 0.18: ops.append('wdest me')
         elif r < 0.30: ops.append('wdest %s' % t)
         elif r < 0.38: ops.append('wdest env')
         elif r < 0.52: ops.append('wmove me %s' % t)
@@ -85,7 +87,7 @@ def gen(rng, tier, i):
         for t in tags:
             for hk in HOOKS:
                 if rng.random() < (0.35 if hk in ('init', 'mod') else 0.15):
-                    if hk == 'x' or not t.startswith('u'): cmd('sc %s %s %s' % (t, hk, _hook_script(rng, tags, st, ',')))
+                    if hk == 'x' or not t.startswith('u'): cmd('sc %s %s %s' % (t, hk, _hook_script(rng, tags, st, ',', hk)))
     big = tier != 'quick' and rng.random() < 0.1
     if big:
         # a large population to cross hash-table and chunk sizes
@@ -99,7 +101,7 @@ def gen(rng, tier, i):
         a = rng.choice(objs); b = rng.choice(tags)
         if cls == 'hooks' and r < 0.18:
             hk = rng.choice(HOOKS)
-            text = 'sc %s %s %s' % (rng.choice(tags) if hk == 'x' else a, hk, _hook_script(rng, tags, st, ','))
+            text = 'sc %s %s %s' % (rng.choice(tags) if hk == 'x' else a, hk, _hook_script(rng, tags, st, ',', hk))
         elif cls == 'hooks' and r < 0.22:
             text = 'setcs %s;%s' % (_hook_script(rng, tags, st, ','), mk())
         elif r < 0.30 and rng.random() < 0.35:
